@@ -587,3 +587,76 @@ m('c11-cbrt-residue-wrong-shift', ['C11'], 'scale-bookkeeping', [
 m('c11-cbrt-trim-not-applied-to-scale', ['C11'], 'scale-bookkeeping', [
   ('src/arithmetic/cbrt.rs', "    new_scale -= digits_to_trim as i64;\n", "    new_scale -= digits_to_trim as i64 - 1;\n")],
   'scale adjusted by one digit too few after trimming')
+# ---- C02 order table
+m('c02-cmp-early-return-skips-sign', ['C02'], 'order-table[', [
+  ('src/impl_cmp.rs', "                res.reverse()\n            }\n        };", "                return res.reverse();\n            }\n        };")],
+  'scale-overflow arm returns before the sign correction: negative operands with huge scale gaps ordered backwards')
+m('c02-cmp-less-arm-not-reversed', ['C02'], 'order-table[', [
+  ('src/impl_cmp.rs', "compare_scaled_biguints(other.digits, self.digits, scale_diff).reverse()", "compare_scaled_biguints(other.digits, self.digits, scale_diff)")],
+  'swapped-operand comparison not reversed')
+m('c02-cmp-less-arm-operands', ['C02'], 'order-table[', [
+  ('src/impl_cmp.rs', "compare_scaled_biguints(other.digits, self.digits, scale_diff).reverse()", "compare_scaled_biguints(self.digits, other.digits, scale_diff)")],
+  'smaller-scale operand scaled up instead of the larger-scale one')
+m('c02-cmp-sign-correction-on-plus', ['C02'], 'order-table[', [
+  ('src/impl_cmp.rs', "        if other.sign == Sign::Minus {\n            result.reverse()", "        if other.sign == Sign::Plus {\n            result.reverse()")],
+  'magnitude order reversed for positive operands')
+m('c02-checked-diff-wrong-order', ['C02'], 'checked_diff', [
+  ('src/arithmetic/mod.rs', "        Less => (Less, _try_subtracting(b, a)),", "        Less => (Less, _try_subtracting(a, b)),")],
+  'checked_diff subtracts larger from smaller: always None, digits ignored for self.scale < other.scale')
+m('c02-eq-greater-arm-roles-swapped', ['C02'], 'eq-table[', [
+  ('src/impl_cmp.rs', """        (Ordering::Greater, Some(scale_diff)) => {
+            unscaled_int = lhs.digits;
+            scaled_int = rhs.digits;""", """        (Ordering::Greater, Some(scale_diff)) => {
+            unscaled_int = rhs.digits;
+            scaled_int = lhs.digits;""")],
+  'for scale(lhs) > scale(rhs) the wrong side is scaled up: 1.0 != 1')
+m('c02-eq-scale-overflow-true', ['C02'], 'eq-table[', [
+  ('src/impl_cmp.rs', """            // numbers must not be equal
+            return false;""", """            // numbers must not be equal
+            return true;""")],
+  'scale gap beyond u64 reported equal')
+m('c02-eq-different-signs-fallthrough', ['C02'], 'eq-table[', [
+  ('src/impl_cmp.rs', "        (a, b) if a != b => return false,", "        (a, b) if a != b && a == Sign::NoSign => return false,")],
+  'opposite non-zero signs fall through to the digit comparison: -1 == 1')
+# ---- C06 the rounding rescale carries the requested scale
+m('c06-round-early-return-keeps-scale', ['C06'], 'BigDecimal::round:carries-requested-scale', [
+  ('src/lib.rs', "        self.with_scale_round(round_digits, Context::default().rounding_mode())", "        if round_digits >= self.scale {\n            return self.clone();\n        }\n        self.with_scale_round(round_digits, Context::default().rounding_mode())")],
+  'round(n) returns the receiver unchanged when extending: scale is not the requested one')
+m('c06-wsr-zero-keeps-old-scale', ['C06'], 'with_scale_round:carries-requested-scale', [
+  ('src/lib.rs', """        use stdlib::cmp::Ordering::*;
+
+        if self.int_val.is_zero() {
+            return BigDecimal::new(BigInt::zero(), new_scale);""", """        use stdlib::cmp::Ordering::*;
+
+        if self.int_val.is_zero() {
+            return BigDecimal::new(BigInt::zero(), self.scale);""")],
+  'zero keeps its old scale in with_scale_round')
+m('c06-wsr-rounded-wrong-label', ['C06'], 'with_scale_round:carries-requested-scale', [
+  ('src/lib.rs', "                BigDecimal::new(rounded_int, new_scale)", "                BigDecimal::new(rounded_int, new_scale + 1)")],
+  'rounded integer labelled with the neighbouring scale')
+# ---- C05 gateway
+m('c05-parse-bytes-bypasses-radix-check', ['C05'], 'parse_bytes:only-through-from_str_radix', [
+  ('src/lib.rs', "        stdlib::str::from_utf8(buf)\n                    .ok()", "        if buf.iter().all(u8::is_ascii_digit) {\n            return BigInt::parse_bytes(buf, radix).map(BigDecimal::from);\n        }\n\n        stdlib::str::from_utf8(buf)\n                    .ok()")],
+  'digit-only byte strings are parsed in whatever radix was passed')
+m('c05-from-str-integer-fast-path', ['C05'], 'from_str:only-through-from_str_radix', [
+  ('src/impl_trait_from_str.rs', "        BigDecimal::from_str_radix(s, 10)", "        if let Ok(i) = s.parse::<BigInt>() {\n            return Ok(BigDecimal::from(i));\n        }\n        BigDecimal::from_str_radix(s, 10)")],
+  'integers parsed by the big-integer grammar instead of the decimal grammar')
+# ---- C14 IEEE-754 field extraction
+m('c14-f64-subnormal-sign-shift-31', ['C14'], 'parse_from_f64_subnormal:magnitude', [
+  ('src/parsing.rs', "    let frac = bits - (sign_bit << 63);", "    let frac = bits - (sign_bit << 31);")],
+  'f32 shift constant pasted into the f64 subnormal routine: negative subnormals get a wrong magnitude')
+m('c14-f32-mantissa-mask-22', ['C14'], 'split_f32_into_parts:mantissa', [
+  ('src/parsing.rs', "    let frac = (bits & ((1 << 23) - 1)) + (1 << 23);", "    let frac = (bits & ((1 << 22) - 1)) + (1 << 23);")],
+  'top mantissa bit dropped')
+m('c14-f64-exponent-bias', ['C14'], 'split_f64_into_parts:exponent', [
+  ('src/parsing.rs', "    let pow = exp as i64 - 1023 - 52;", "    let pow = exp as i64 - 1022 - 52;")],
+  'bias off by one: every normal f64 doubled')
+m('c14-f32-exponent-mask', ['C14'], 'split_f32_into_parts:exponent', [
+  ('src/parsing.rs', "    let exp = (bits >> 23) & 0xFF;", "    let exp = (bits >> 23) & 0x7F;")],
+  'top exponent bit dropped')
+m('c14-f64-sign-polarity', ['C14'], 'split_f64_into_parts:sign', [
+  ('src/parsing.rs', "    let sign_bit = bits & (1 << 63);\n    let sign = if sign_bit == 0 {\n        Sign::Plus\n    } else {\n        Sign::Minus\n    };", "    let sign_bit = bits & (1 << 63);\n    let sign = if sign_bit != 0 {\n        Sign::Plus\n    } else {\n        Sign::Minus\n    };")],
+  'sign polarity inverted')
+m('c14-f32-zero-test-includes-sign', ['C14'], 'parse_from_f32:zero-test', [
+  ('src/parsing.rs', "    let bits = n.to_bits();\n\n    if (bits << 1) == 0 {\n        return Zero::zero();\n    }\n\n    // n = <sign> frac * 2^pow\n    let (frac, pow, sign) = split_f32_into_parts(n);", "    let bits = n.to_bits();\n\n    if bits == 0 {\n        return Zero::zero();\n    }\n\n    // n = <sign> frac * 2^pow\n    let (frac, pow, sign) = split_f32_into_parts(n);")],
+  '-0.0 not recognised as zero: converted through the normal path as -2^-150')
